@@ -40,7 +40,7 @@ def run(ctx):
                                                 {'name': 'mem_loops', 'params': {'nports': 2}},
                                                 {'name': 'mem_loops', 'params': {'nports': 3}}]
     if ctx.tier != 'quick':
-        fam += [{'name': 'rand_design', 'params': {'seed': 5000 + s}} for s in range(150)]
+        fam += [{'name': 'rand_design', 'params': {'seed': 5000 + s}} for s in range(600)]
     tasks = []
     for d in fam:
         for v in (-1, 0, 1, 2):
